@@ -13,7 +13,7 @@ CHECKS = {
          "The model interprets the declaration; the compiled code is the macro's output; they share only the declaration. Declarations are bounded (<= 6 initial fields, <= 6 steps compiled).", "5.2"),
  "C03": ("E3", "exploration", "property-based testing over generated evolution histories (legal by construction) x all writer/reader version pairs, logical-level oracle",
          "Histories of evolution steps are generated from selector specs and built so that every one is legal; each (history, writer version, reader version, value, placement) case is executed through the real AdtSerializer/AdtDeserializer and compared with the documented outcome computed on the logical level (defaults, wrap/unwrap, absent-if-optional, the two specific errors with field names), including that sibling data after the record is intact.",
-         "Trusts the run-time interpreter that drives AdtSerializer/AdtDeserializer like the derive expansion (validated against the real expansion by C02's compiled declarations) and DESIGN section 9 for the excluded combination.", "5.3"),
+         "Trusts the run-time interpreter that drives AdtSerializer/AdtDeserializer like the derive expansion (validated against the real expansion by C02's compiled declarations) and DESIGN section 9 for the excluded combination. Known finding F17 (string ids of header names across versions) is recognised by an exact per-case criterion, counted and re-exhibited on every run.", "5.3"),
  "C04": ("E1", "exploration", "property-based differential testing against an independent reference codec (vmodel::refcodec), both directions",
          "Every generated value is encoded by desert and by an independent reference encoder written from the format description (no shared code) and compared byte for byte; conversely reference encodings in forms the Rust writer never emits (unknown-length sequences) must decode to the denoted value.",
          "Trusts the reference model as the statement of the format (DESIGN section 4).", "5.4"),
